@@ -82,6 +82,10 @@ pub struct PlainCase {
     pub canary_seed: u64,
     /// run the same history on a second repository initialised with the same master key
     pub twin: bool,
+    /// at the end copy all snapshots into a fresh repository with another master key
+    /// (key seed, version 1/2, compression): what arrives there must be ciphertext under *its* key
+    #[serde(default)]
+    pub copy_to: Option<(u64, u8, Option<i32>)>,
 }
 
 const CANARY_LEN: usize = 24;
@@ -196,14 +200,23 @@ fn plain_strategy(ctx: &Ctx) -> BoxedStrategy<PlainCase> {
                 prop::collection::vec(hop(p, false), 1..=len),
                 any::<u64>(),
                 prop::bool::weighted(0.35),
+                prop::option::weighted(
+                    0.45,
+                    (
+                        any::<u64>(),
+                        prop_oneof![1 => Just(1u8), 2 => Just(2u8)],
+                        prop_oneof![2 => Just(None), 3 => Just(Some(0i32)), 2 => (-3i32..10).prop_map(Some)],
+                    ),
+                ),
             )
         })
-        .prop_map(|(cfg, tree, ops, canary_seed, twin)| PlainCase {
+        .prop_map(|(cfg, tree, ops, canary_seed, twin, copy_to)| PlainCase {
             cfg,
             tree,
             ops,
             canary_seed,
             twin,
+            copy_to,
         })
         .boxed()
 }
@@ -412,6 +425,31 @@ fn run_plain(c: &PlainCase, _ctx: &Ctx) -> Outcome {
     for w in &worlds {
         if let Err(e) = w.verify_snapshots() {
             fail!("at the end of the history: {e}");
+        }
+    }
+    // copy into a repository with another key: everything that arrives is stored under that key
+    if let Some((key_seed, version, compression)) = c.copy_to {
+        let mut cfg2 = c.cfg.clone();
+        cfg2.key_seed = key_seed ^ 0x5A5A_1234;
+        cfg2.version = version;
+        cfg2.compression = if version == 1 { None } else { compression };
+        if cfg2.key64() != key {
+            let dst = crate::membe::Storage::new();
+            match crate::repo::init_repo(dst.handle(), &cfg2) {
+                Ok(r) => drop(r),
+                Err(e) => fail!("destination of the copy: {e}"),
+            }
+            let snaps: Vec<_> = worlds[0].live.iter().map(|l| l.snap.clone()).collect();
+            if let Err(e) = crate::cmds::copy_snapshots(&worlds[0].storage, &c.cfg, &dst, &cfg2, &snaps) {
+                fail!("copy into a repository with another key: {e}");
+            }
+            if let Err(e) = examine(&mut book, &scanner, 9, &dst, &cfg2.key64(), false) {
+                fail!("destination of a copy (repository 9, own master key): {e}");
+            }
+            let dst_plain = cfg2.version < 2 || cfg2.compression == Some(0);
+            out = out
+                .class("copied_into_other_key")
+                .class_if(!compression_on && dst_plain, "copied_between_uncompressed_repositories");
         }
     }
     let nonces = book.seen.len();
